@@ -147,7 +147,7 @@ func drawVerbose(t *rapid.T) *pbt.Case {
 func ownDetail(l gen.Layer, decoded bool) []string {
 	switch l.Typ {
 	case "*withstack.withStack":
-		if l.Spec.K == "stackdeep" { // captured no frame
+		if l.Spec.K == "stackdeep" || l.Spec.K == "stackn" { // captured no frame, or only frames of the runtime (assembly) and the test runner
 			if decoded {
 				return []string{"(opaque error wrapper)", "withstack.withStack"}
 			}
